@@ -28,7 +28,7 @@ var R = hx.NewRecorder("C16", "cases = histories (rapid state machine) of up to 
 	"oracle = model of what must / must not / may resume; DidResume equal on both ends; a resumed GMSSL connection must decode under the ORIGINAL master secret with the new randoms (independent passive decoder), keep version, suite and peer certificates; a non-resumed one must be a full handshake; data round trip after every connection; non-trivial = a connection that offered a ticket; distinct by hash of the history")
 
 func TestMain(m *testing.M) {
-	R.Require("version_changed", "ticket_opened", "ekm_reference", "original_master_proved", "resumed_gm", "resumed_tls", "rotated_old_key_accepted", "rotated_dropped", "tampered", "evicted", "policy_now_forbids_certs", "policy_now_requires_certs", "policy_now_verifies_untrusted_cert:gm=true", "policy_now_verifies_untrusted_cert:gm=false", "resumed_identity_verified:gm=true", "resumed_identity_verified:gm=false", "tickets_disabled", "server_switched", "suite_removed", "must_resume", "must_not_resume")
+	R.Require("tls_ticket:tampered", "tls_ticket:genuine", "version_changed", "ticket_opened", "ekm_reference", "original_master_proved", "resumed_gm", "resumed_tls", "rotated_old_key_accepted", "rotated_dropped", "tampered", "evicted", "policy_now_forbids_certs", "policy_now_requires_certs", "policy_now_verifies_untrusted_cert:gm=true", "policy_now_verifies_untrusted_cert:gm=false", "resumed_identity_verified:gm=true", "resumed_identity_verified:gm=false", "tickets_disabled", "server_switched", "suite_removed", "must_resume", "must_not_resume")
 	hx.Main(m, R)
 }
 
@@ -643,6 +643,119 @@ func hasKey(keys [][32]byte, k [32]byte) bool {
 }
 
 // ---- tickets offered by the independent reference client: genuine, altered, truncated, extended
+
+// TLS mode: the keyed scripted TLS 1.2 client (rgmssl.ResumeTLS12) offers genuine, altered, truncated, extended, foreign
+// and rotated-away tickets to the TLS-only and the auto-switch server. Only the ticket the server issued, under a key
+// it still holds, may lead to an abbreviated handshake; everything else falls back to a full one (which the script does
+// not follow) - and a resumed handshake completes only under the session's own master secret.
+func TestC16_TLSTicketTampering(t *testing.T) {
+	p := tlsx.GetPKI()
+	n := 0
+	var cnt int64
+	for _, mode := range []string{"tlsserver", "autoserver"} {
+		mk := func(id string, keys [][32]byte) *gmtls.Config {
+			var sc *gmtls.Config
+			if mode == "tlsserver" {
+				sc = tlsx.TLSServer(p, p.RSASrv, "s"+id)
+			} else {
+				sc = tlsx.AutoServer(p, p.RSASrv, "s"+id)
+			}
+			sc.CipherSuites = []uint16{0xc02f, 0xc014}
+			sc.SetSessionTicketKeys(keys)
+			return sc
+		}
+		issue := func(id string, keys [][32]byte) (ticket, master []byte) {
+			cc := tlsx.TLSClient(p, "c"+id)
+			cc.CipherSuites = []uint16{0xc02f}
+			cc.MinVersion, cc.MaxVersion = 0x0303, 0x0303
+			cc.ClientSessionCache = gmtls.NewLRUClientSessionCache(1)
+			sc := mk(id, keys)
+			r := tlsx.Run(cc, sc, tlsx.Script{ClientSend: []byte("first")})
+			if r.Client.HSErr != nil || r.Server.HSErr != nil {
+				t.Fatalf("harness: honest first connection failed: %s", r.Describe())
+			}
+			_, _, ticket = plainFlight(r.Log)
+			ok, _, _, m, _ := gmtls.VerifDecryptTicket(sc, ticket)
+			if ticket == nil || !ok {
+				t.Fatalf("harness: no usable ticket from the first connection")
+			}
+			return ticket, m
+		}
+		k1, k2 := [][32]byte{keyN(41)}, [][32]byte{keyN(42), keyN(41)}
+		ticket, master := issue("tt"+mode, k1)
+		otherTicket, _ := issue("tto"+mode, k1)
+		type tc struct {
+			name   string
+			ticket []byte
+			master []byte
+			keys   [][32]byte
+			resume bool
+		}
+		cases := []tc{
+			{"genuine", ticket, master, k1, true},
+			{"genuine_after_rotation_keeping_the_key", ticket, master, k2, true},
+			{"genuine_after_rotation_dropping_the_key", ticket, master, [][32]byte{keyN(43)}, false},
+			{"empty", []byte{}, master, k1, false},
+			{"extended", append(append([]byte{}, ticket...), 0), master, k1, false},
+			{"other_session_ticket_with_this_master", otherTicket, master, k1, false},
+		}
+		step := 1
+		if !hx.Thorough() {
+			step = 3
+		}
+		for i := 0; i < len(ticket); i += step {
+			tk := append([]byte{}, ticket...)
+			tk[i] ^= 1 << uint(i%8)
+			cases = append(cases, tc{fmt.Sprintf("byte %d flipped", i), tk, master, k1, false})
+			if i%7 == 0 {
+				cases = append(cases, tc{fmt.Sprintf("truncated to %d", i), ticket[:i], master, k1, false})
+			}
+		}
+		for _, c := range cases {
+			n++
+			o := rgmssl.TLSResumeOpts{Ticket: c.ticket, Master: c.master, Random: bytes.Repeat([]byte{byte(n)}, 32), AppData: []byte("x")}
+			var rr *rgmssl.TLSResumeResult
+			sc := mk(fmt.Sprint("tt", n), c.keys)
+			r := tlsx.RunServerAgainst(sc, []byte("y"), func(rw *wire.Conn) error {
+				var err error
+				rr, err = rgmssl.ResumeTLS12(rw, o)
+				return err
+			})
+			desc := fmt.Sprintf("%s, ticket %s | server: hs=%v | scripted client: err=%v log=%v", mode, c.name, r.GM.HSErr, r.PeerErr, rr.Log)
+			if r.GM.Panic != nil {
+				t.Fatalf("the server PANICKED: %v\n%s", r.GM.Panic.Val, desc)
+			}
+			if c.resume {
+				if !rr.Resumed || !rr.Completed || r.GM.HSErr != nil || !r.GM.State.DidResume {
+					t.Fatalf("a genuine ticket under a key the server holds was not resumed to completion\n%s", desc)
+				}
+				if strings.Contains(c.name, "rotation") {
+					// resumed under an old key: the server refreshes the ticket under its primary key
+					kc := &gmtls.Config{}
+					kc.SetSessionTicketKeys(c.keys)
+					ok, _, _, m, old := gmtls.VerifDecryptTicket(kc, rr.NewTicket)
+					if rr.NewTicket == nil || !ok || old || !bytes.Equal(m, master) {
+						t.Fatalf("a session resumed under a retired key was not re-issued under the primary key with the same master secret (ticket=%d bytes ok=%v old=%v)\n%s", len(rr.NewTicket), ok, old, desc)
+					}
+				}
+			} else {
+				if rr.Completed || (rr.Resumed && c.name != "other_session_ticket_with_this_master") || r.GM.State.DidResume && r.GM.HSErr == nil {
+					t.Fatalf("the server went along with a ticket it must not accept (resumed=%v completed=%v)\n%s", rr.Resumed, rr.Completed, desc)
+				}
+				if !rr.Resumed && !rr.FullFallback && c.name != "other_session_ticket_with_this_master" {
+					t.Fatalf("an unusable ticket must lead to a silent full handshake, not to a failure\n%s", desc)
+				}
+			}
+			cnt++
+			cl := "tls_ticket:tampered"
+			if c.resume {
+				cl = "tls_ticket:genuine"
+			}
+			R.Case(true, hx.HashKey("tlstk", mode, c.name), cl, "tls_ticket_scripted")
+		}
+	}
+	R.Subspace("TLS-mode tickets: genuine / rotated / foreign / every (quick: third) byte flipped / truncations, against TLS-only and auto-switch servers, keyed scripted client", cnt, true)
+}
 
 func TestC16_TicketTampering(t *testing.T) {
 	p := tlsx.GetPKI()
